@@ -14,7 +14,7 @@ from concurrent.futures import ThreadPoolExecutor
 here = os.path.dirname(os.path.dirname(os.path.abspath(__file__)))
 
 
-def run_one(mid, patch, props, tier):
+def run_one(mid, patch, props, tier, pre=()):
     wt = "/tmp/mut-" + mid
     out = "/tmp/mutout-" + mid
     subprocess.run(["git", "-C", "/repo", "worktree", "remove", "--force", wt], capture_output=True)
@@ -22,6 +22,8 @@ def run_one(mid, patch, props, tier):
     r = subprocess.run(["git", "-C", "/repo", "worktree", "add", "-q", wt, "HEAD"], capture_output=True, text=True)
     res = {}
     try:
+        for extra in pre:  # patches the change presupposes (a later fix neutralised it)
+            subprocess.run(["git", "-C", wt, "apply", os.path.join(here, extra)], capture_output=True, text=True)
         a = subprocess.run(["git", "-C", wt, "apply", patch], capture_output=True, text=True)
         if a.returncode != 0:
             return {p: "patch-does-not-apply: " + a.stderr.strip()[:200] for p in props}
@@ -58,7 +60,7 @@ def main():
         for f, props in sorted(mp.items()):
             props = [p for p in props if not only or p in only]
             if props:
-                todo.append(("revert-" + f, os.path.join(here, "regress", "revert-%s.diff" % f), props))
+                todo.append(("revert-" + f, os.path.join(here, "regress", "revert-%s.diff" % f), props, ()))
     if a.kind in ("all", "seeded"):
         for d in sorted(glob.glob(os.path.join(here, "seeded", "*"))):
             mj = os.path.join(d, "meta.json")
@@ -69,10 +71,10 @@ def main():
             props = [p for p in props if not only or p in only]
             props = [p for p in props if os.path.exists(os.path.join(here, "checks", p.lower() + ".py"))]
             if props:
-                todo.append((os.path.basename(d), os.path.join(d, "patch.diff"), props))
+                todo.append((os.path.basename(d), os.path.join(d, "patch.diff"), props, tuple(m.get("also_apply", []))))
     results = {}
     with ThreadPoolExecutor(max_workers=a.jobs) as ex:
-        futs = {mid: ex.submit(run_one, mid, patch, props, a.tier) for mid, patch, props in todo}
+        futs = {mid: ex.submit(run_one, mid, patch, props, a.tier, pre) for mid, patch, props, pre in todo}
         for mid, f in futs.items():
             results[mid] = f.result()
             print("%-28s %s" % (mid, results[mid]), flush=True)
